@@ -17,6 +17,10 @@ def main():
     a = ap.parse_args()
     os.environ["VERIF_TIER"] = a.tier
     sys.setrecursionlimit(20000)
+    from vf.pysym import ops as _ops      # reads CPython's int<->str digit limit (part of the modelled semantics) ...
+    if hasattr(sys, "set_int_max_str_digits"):
+        sys.set_int_max_str_digits(0)     # ... before lifting it for the checker's own arithmetic (z3 numerals, witnesses);
+                                          # replays run in fresh interpreters with the default limit
     from vf import common
     if a.replay:
         payload = json.load(open(a.replay))
